@@ -178,9 +178,38 @@ def run(ctx):
     ctx.sample({"stream": items[-1][0].hex(), "lim": list(items[-1][1]), "strict": specs[-1]["detail"][:60] if specs[-1] else None})
     ctx.close_suite("request-parser-model", ran)
     ctx.close_suite("model-vs-strict-reading", ran)
+    suite_server(ctx)
+
+
+def suite_server(ctx):
+    """Server level (web_protocol.py is one of C01's anchors): what the server SERVES must be what the strict
+    reading frames.  Reuses the in-process RequestHandler driver of harness/c05.py for the families that are about
+    framing: a body that cannot be decoded must not let the rest of the announced body be served as a request;
+    bytes behind an accepted protocol switch are never parsed as HTTP; bytes buffered behind a declined upgrade
+    are served exactly once."""
+    from harness import c05
+    rng = ctx.rng
+    cases = [c for c in c05.special_fixed_cases(rng) if c["suite"] in ("ws", "upgrade")]
+    gens = (c05.gen_badenc_case, c05.gen_ws_case, c05.gen_upgrade_case)
+    for k in range(45 if ctx.quick else 900):
+        cases.append(gens[k % len(gens)](rng))
+    for c in cases:
+        r = c05.run_impl(c, shadow=False)
+        ctx.case(("server", c["suite"], tuple(r["snaps"])), nontrivial=r["complete"] > 0)
+        ctx.count("server:" + c["suite"])
+        for vkind, text in r["bad"]:
+            cc = dict(c)
+            cc["vkind"] = vkind
+            cc["c01_server_case"] = True
+            ctx.violation(cc, f"server level, {vkind}: {text}")
+    ctx.count("suite:server-framing-oracle", len(cases))
 
 
 def replay(ctx, case):
+    if case.get("c01_server_case"):
+        from harness import c05
+        r = c05.run_impl(case, shadow=False)
+        return {"bad": r["bad"], "violates": bool(r["bad"])}
     ok, exe = H.build_model()
     s, lim = bytes.fromhex(case["stream"]), tuple(case["lim"])
     sp = spec_run_many(exe, [(s, lim)])[0]
